@@ -331,5 +331,44 @@ static void blk_reused_destination(void) {
 		else { if (memcmp(z, u, t->osz)) viol_rt(t->name, "decoded-object-keeps-content-of-the-destination", "\"destination\":\"held another complete key\""); if (memcmp(z, a, t->osz)) viol_rt(t->name, "decoded-object-keeps-content-of-the-destination:poison", "\"destination\":\"0xAA fill\""); }
 		free(z); free(u); free(a); vh_sample("{\"block\":\"reused-destination\",\"reader\":\"%s\",\"object_size\":%zu,\"encoding_len\":%zu}", t->name, t->osz, t->el); }
 }
-static void body(void) { blk_decoders(); blk_text(); blk_composite(); blk_typed_pem(); blk_reused_destination(); blk_values(); }
+/* ---------- signatures and ciphertexts: value round trip, and every ACCEPTED encoding re-encodes to the offered octets. Offered: every single-bit change of a
+   genuine encoding, every INTEGER / OCTET STRING member re-written with 33 and 34 content octets (minimal positive), with a redundant leading zero, negative,
+   and empty, and the genuine encoding with one trailing octet ---------- */
+typedef int (*reenc_f)(const uint8_t *in, size_t n, uint8_t *re, size_t *rl);   /* 1: accepted and everything consumed */
+static int re_sm2sig(const uint8_t *in, size_t n, uint8_t *re, size_t *rl) { SM2_SIGNATURE g; const uint8_t *cp = in; size_t il = n; if (sm2_signature_from_der(&g, &cp, &il) != 1 || il) return 0; uint8_t *p = re; *rl = 0; return sm2_signature_to_der(&g, &p, rl) == 1; }
+static int re_sm2ct(const uint8_t *in, size_t n, uint8_t *re, size_t *rl) { SM2_CIPHERTEXT c; const uint8_t *cp = in; size_t il = n; if (sm2_ciphertext_from_der(&c, &cp, &il) != 1 || il) return 0; uint8_t *p = re; *rl = 0; return sm2_ciphertext_to_der(&c, &p, rl) == 1; }
+static int re_sm9sig(const uint8_t *in, size_t n, uint8_t *re, size_t *rl) { SM9_SIGNATURE g; const uint8_t *cp = in; size_t il = n; if (sm9_signature_from_der(&g, &cp, &il) != 1 || il) return 0; uint8_t *p = re; *rl = 0; return sm9_signature_to_der(&g, &p, rl) == 1; }
+static int re_sm9ct(const uint8_t *in, size_t n, uint8_t *re, size_t *rl) { SM9_Z256_POINT C1; const uint8_t *c2, *c3; size_t c2l; const uint8_t *cp = in; size_t il = n; if (sm9_ciphertext_from_der(&C1, &c2, &c2l, &c3, &cp, &il) != 1 || il) return 0; uint8_t *p = re; *rl = 0; return sm9_ciphertext_to_der(&C1, c2, c2l, c3, &p, rl) == 1; }
+static void offer_reenc(const char *type, reenc_f f, const uint8_t *m, size_t n, const char *how) { uint8_t *hb = (uint8_t *)malloc(n ? n : 1); memcpy(hb, m, n); static uint8_t re[1200]; size_t rl = 0; int r = f(hb, n, re, &rl); vh_evals++; if (r == 1) { vh_nontriv++; if (rl != n || memcmp(re, hb, n)) { char key[160]; snprintf(key, sizeof key, "C14:%s:accepted-but-reencodes-differently:%s", type, how); vh_viol(key, "\"offered\":\"%s\",\"reencoded\":\"%s\"", vh_hex(hb, n > 120 ? 120 : n), vh_hex(re, rl > 120 ? 120 : rl)); } } free(hb); }
+/* rebuild a SEQUENCE with member `idx` (counted over the primitive members, in order, descending into nested SEQUENCEs) replaced by `rep` */
+static size_t member_replace(const uint8_t *in, size_t n, int *idx, const uint8_t *repv, size_t repl, uint8_t *out) { der_cur c = { in, n }; size_t o = 0; while (c.n) { const uint8_t *st = c.p; int tag; const uint8_t *v; size_t vl, h; if (!der_tlv(&c, &tag, &v, &vl, &h)) return 0;
+		if (tag & 0x20) { uint8_t *tmp = (uint8_t *)malloc(vl + repl + 16); size_t tl = member_replace(v, vl, idx, repv, repl, tmp); o += der_put_tlv(out + o, tag, tmp, tl); free(tmp); } else if ((*idx)-- == 0) o += der_put_tlv(out + o, tag, repv, repl); else { memcpy(out + o, st, h + vl); o += h + vl; } } return o; }
+static int member_get(const uint8_t *in, size_t n, int *idx, const uint8_t **v_, size_t *vl_) { der_cur c = { in, n }; while (c.n) { int tag; const uint8_t *v; size_t vl; if (!der_tlv(&c, &tag, &v, &vl, NULL)) return 0; if (tag & 0x20) { if (member_get(v, vl, idx, v_, vl_)) return 1; } else if ((*idx)-- == 0) { *v_ = v; *vl_ = vl; return 1; } } return 0; }
+static void family(const char *type, reenc_f f, const uint8_t *der, size_t n) { static uint8_t m[1300], rep[300]; char how[64];
+	offer_reenc(type, f, der, n, "genuine"); { static uint8_t re[1200]; size_t rl = 0; vh_evals++; vh_nontriv++; if (f(der, n, re, &rl) != 1 || rl != n || memcmp(re, der, n)) { char key[96]; snprintf(key, sizeof key, "C14:%s:own-encoding-does-not-round-trip", type); vh_viol(key, "\"der\":\"%s\"", vh_hex(der, n > 120 ? 120 : n)); } }
+	for (size_t bit = 0; bit < n * 8; bit++) { memcpy(m, der, n); m[bit / 8] ^= (uint8_t)(1 << (bit % 8)); offer_reenc(type, f, m, n, "bit-changed"); }
+	memcpy(m, der, n); m[n] = 0; offer_reenc(type, f, m, n + 1, "trailing-octet");
+	for (int mi = 0; mi < 8; mi++) { int ix = mi; const uint8_t *v; size_t vl; if (!member_get(der, n, &ix, &v, &vl)) break; if (vl > 200) continue;
+		for (int kind = 0; kind < 6; kind++) { size_t rl = 0; switch (kind) { case 0: rl = 33; memset(rep, 0x5a, 33); rep[0] = 0x01; if (vl && vl <= 32) memcpy(rep + 33 - vl, v, vl); break; /* 33 content octets, minimal positive, low octets = the genuine value */
+			case 1: rl = 34; memset(rep, 0x11, 34); rep[0] = 0x01; if (vl && vl <= 32) memcpy(rep + 34 - vl, v, vl); break; case 2: rep[0] = 0; memcpy(rep + 1, v, vl); rl = vl + 1; break; /* redundant leading zero */
+			case 3: memcpy(rep, v, vl); rl = vl; if (rl) rep[0] |= 0x80; break; /* negative */ case 4: rl = 0; break; /* empty */ default: rl = vl > 1 ? vl - 1 : 0; memcpy(rep, v + (vl > 1 ? 1 : 0), rl); break; /* first content octet dropped */ }
+			int ix2 = mi; size_t ml = member_replace(der, n, &ix2, rep, rl, m); if (!ml) continue; static const char *KN[] = { "member-with-33-content-octets", "member-with-34-content-octets", "member-with-redundant-leading-zero", "member-negative", "member-empty", "member-without-its-first-octet" }; snprintf(how, sizeof how, "%s", KN[kind]); offer_reenc(type, f, m, ml, how); } }
+}
+static void blk_sig_ct(void) {
+	if (!vh_block_begin("signatures-and-ciphertexts")) return; static uint8_t der[1200]; uint8_t *p; size_t n;
+	static const uint8_t LEAD[] = { 0x00, 0x01, 0x7f, 0x80, 0xff };
+	for (int a = 0; a < 5; a++) for (int b = 0; b < 5; b++) { if (!vh_next()) continue; SM2_SIGNATURE g; memset(g.r, 0x3c, 32); memset(g.s, 0xc3, 32); g.r[0] = LEAD[a]; g.s[0] = LEAD[b]; if (a == 0) g.r[1] = 0x80; if (b == 0) { g.s[1] = 0; g.s[2] = 0x7f; } p = der; n = 0; if (sm2_signature_to_der(&g, &p, &n) != 1) { vh_viol("C14:sm2_signature:encode-refused", "\"a\":%d,\"b\":%d", a, b); continue; }
+		SM2_SIGNATURE h; const uint8_t *cp = der; size_t il = n; vh_eval(vh_mix(a * 5 + b + 120001)); if (sm2_signature_from_der(&h, &cp, &il) != 1 || il || memcmp(&g, &h, sizeof g)) vh_viol("C14:sm2_signature:roundtrip", "\"a\":%d,\"b\":%d", a, b); family("sm2_signature", re_sm2sig, der, n); }
+	static const size_t CL[] = { 1, 31, 32, 33, 127, 128, 255 };
+	for (int a = 0; a < 5; a++) for (int b = 0; b < 5; b++) for (int ci = 0; ci < 7; ci++) { if (!vh_next()) continue; if (!vh_thorough && ci && (a != b)) continue; SM2_CIPHERTEXT c; memset(&c, 0, sizeof c); memset(c.point.x, 0x3c, 32); memset(c.point.y, 0xc3, 32); c.point.x[0] = LEAD[a]; c.point.y[0] = LEAD[b]; if (a == 0) c.point.x[1] = 0x80; for (int i = 0; i < 32; i++) c.hash[i] = (uint8_t)(i + 1); c.ciphertext_size = (uint8_t)CL[ci]; for (size_t i = 0; i < CL[ci]; i++) c.ciphertext[i] = (uint8_t)(0xa0 + i);
+		p = der; n = 0; if (sm2_ciphertext_to_der(&c, &p, &n) != 1) { vh_viol("C14:sm2_ciphertext:encode-refused", "\"a\":%d,\"b\":%d,\"len\":%zu", a, b, CL[ci]); continue; } SM2_CIPHERTEXT d; memset(&d, 0, sizeof d); const uint8_t *cp = der; size_t il = n; vh_eval(vh_mix(a * 50 + b * 10 + ci + 120101));
+		if (sm2_ciphertext_from_der(&d, &cp, &il) != 1 || il || memcmp(&c.point, &d.point, 64) || memcmp(c.hash, d.hash, 32) || d.ciphertext_size != c.ciphertext_size || memcmp(c.ciphertext, d.ciphertext, CL[ci])) vh_viol("C14:sm2_ciphertext:roundtrip", "\"a\":%d,\"b\":%d,\"len\":%zu", a, b, CL[ci]); if (ci < 2 || vh_thorough) family("sm2_ciphertext", re_sm2ct, der, n); }
+	/* SM9: a genuine signature and a genuine ciphertext from fixed keys */
+	if (vh_next()) { venv_reset(5150); SM9_SIGN_MASTER_KEY sm; SM9_SIGN_KEY sk; SM9_ENC_MASTER_KEY em; if (sm9_sign_master_key_generate(&sm) != 1 || sm9_sign_master_key_extract_key(&sm, "alice", 5, &sk) != 1 || sm9_enc_master_key_generate(&em) != 1) vh_harness_error("sm9 keys");
+		SM9_SIGN_CTX sc; sm9_sign_init(&sc); sm9_sign_update(&sc, (const uint8_t *)"message", 7); n = 0; if (sm9_sign_finish(&sc, &sk, der, &n) != 1) vh_harness_error("sm9 sign"); family("sm9_signature", re_sm9sig, der, n);
+		{ SM9_SIGNATURE g, h; const uint8_t *cp = der; size_t il = n; if (sm9_signature_from_der(&g, &cp, &il) != 1 || il) vh_viol("C14:sm9_signature:own-encoding-refused", "\"x\":1"); else { uint8_t b2[300]; uint8_t *q = b2; size_t l2 = 0; sm9_signature_to_der(&g, &q, &l2); cp = b2; il = l2; vh_eval(120301); if (sm9_signature_from_der(&h, &cp, &il) != 1 || memcmp(g.h, h.h, sizeof g.h) || sm9_z256_point_equ(&g.S, &h.S) != 1) vh_viol("C14:sm9_signature:roundtrip", "\"x\":1"); } }
+		static const size_t PL[] = { 1, 32, 100 }; for (int pi = 0; pi < 3; pi++) { uint8_t msg[100]; memset(msg, 0x77, sizeof msg); n = 0; if (sm9_encrypt(&em, "bob", 3, msg, PL[pi], der, &n) != 1) vh_harness_error("sm9 encrypt"); if (pi == 0 || vh_thorough) family("sm9_ciphertext", re_sm9ct, der, n); else { offer_reenc("sm9_ciphertext", re_sm9ct, der, n, "genuine"); } } }
+	vh_sample("{\"block\":\"signatures-and-ciphertexts\",\"families\":[\"sm2_signature\",\"sm2_ciphertext\",\"sm9_signature\",\"sm9_ciphertext\"]}");
+}
+static void body(void) { blk_decoders(); blk_sig_ct(); blk_text(); blk_composite(); blk_typed_pem(); blk_reused_destination(); blk_values(); }
 int main(int argc, char **argv) { vh_init(argc, argv); vh_guarded("C14", body, 120); return vh_finish(); }
